@@ -167,7 +167,7 @@ def templates(version, tier, want='all', part=0, of=1):
                         if t is not None:
                             yield 1, t
         return
-    if want in ('all', 'low'):
+    if want in ('all', 'low', 'corrupt_full'):
         L1 = leaves_named(version)
         for l in L1:
             if mine():
@@ -185,6 +185,8 @@ def templates(version, tier, want='all', part=0, of=1):
                         t = op(x, y)
                         if t is not None:
                             yield 1, t
+        if want == 'corrupt_full':
+            return
         for n, op in T3:
             for x in LC:
                 for y in LC:
@@ -441,6 +443,8 @@ def instances(version, tier, want='all', part=0, of=1, maxops=None):
         nleaves = count_leaves(t)
         if want == 'corrupt':
             maxnum, cap = (1, 5) if nleaves <= 1 else (0, 4)
+        elif want == 'corrupt_full':
+            maxnum, cap = bounds('quick', ops, nleaves, ns, version)
         else:
             maxnum, cap = bounds(tier, ops, nleaves, ns, version)
             if version == 1 and tier == 'quick' and ops >= 2 and nleaves >= 2 and has_space(t):
